@@ -788,6 +788,14 @@ func (c *rCtx) recOp(op string, a map[string]string) (lab rLabel, vr string) {
 	if c.pair.panicked() {
 		lab.Pan = true
 	}
+	if lab.Pan || (fail && call.method == "Forward") {
+		// service on this connection ends (by design when the served agent's Forward fails): wait for it, so
+		// that the next operation gets a fresh connection
+		select {
+		case <-c.pair.done:
+		case <-time.After(5 * time.Second):
+		}
+	}
 	return lab, vr
 }
 
@@ -1162,6 +1170,10 @@ func (t *twin) realOp(r *mrand.Rand, op string) (lab rLabel, vr string) {
 	lab.Toolran = len(t.td.ran()) > 0
 	if t.pair.panicked() {
 		lab.Pan = true
+		select {
+		case <-t.pair.done:
+		case <-time.After(5 * time.Second):
+		}
 	}
 	lab.Steq = stateTag(t.a) == stateTag(t.b)
 	return lab, vr
